@@ -14,8 +14,8 @@ CONSTANTS K,           \* schedule length
 VARIABLES mix, sched
 vars == <<mix, sched>>
 
-MixesQuick == { <<"R1", "R1">>, <<"R2", "R2">>, <<"R3", "R3">>, <<"R6", "R1">>, <<"R4", "R4">>, <<"R3", "R5">>, <<"R7", "R7">> }
-MixesFull == MixesQuick \cup { <<"R1", "R6", "R1">>, <<"R3", "R4", "R2">>, <<"R3", "R3", "R5">>, <<"R6", "R6">>, <<"R2", "R4">>, <<"R7", "R3", "R5">>, <<"R7", "R6">> }
+MixesQuick == { <<"R1", "R1">>, <<"R2", "R2">>, <<"R3", "R3">>, <<"R6", "R1">>, <<"R4", "R4">>, <<"R3", "R5">>, <<"R7", "R7">>, <<"R8", "R9">> }
+MixesFull == MixesQuick \cup { <<"R1", "R6", "R1">>, <<"R3", "R4", "R2">>, <<"R3", "R3", "R5">>, <<"R6", "R6">>, <<"R2", "R4">>, <<"R7", "R3", "R5">>, <<"R7", "R6">>, <<"R9", "R8", "R9">>, <<"R8", "R2">> }
 
 Init == mix \in Mixes /\ sched = <<>>
 Next == Len(sched) < K /\ \E g \in 1..Len(mix) : sched' = Append(sched, g) /\ UNCHANGED mix
